@@ -110,6 +110,11 @@ def extract(tree):
     c["lenLimit"] = (2**31 - 1) // csrc.cint(m.group(1))
     m = _need(r"if\s*\(\s*ee\s*<\s*\(\s*INT32_MAX\s*/\s*(\w+)\s*\)\s*\)\s*\{\s*ee\s*=\s*exp_base\s*\*\s*ee\s*\+\s*digit\s*;", sc, "scan_number: exponent clamp")
     c["eeLimit"] = (2**31 - 1) // csrc.cint(m.group(1))
+    # what happens to further exponent digits once the clamp is reached: nothing (digits dropped: eeSat = 0) or saturation
+    m2 = re.match(r"\s*\}\s*(?:else\s*\{\s*ee\s*=\s*INT32_MAX\s*/\s*(\w+)\s*;\s*\}\s*)?str\+\+\s*;\s*seenadigit\s*=\s*1\s*;", sc[m.end():], re.S)
+    if not m2:
+        raise ExtractError("strtod.c: scan_number: statement after the exponent clamp not recognised")
+    c["eeSat"] = (2**31 - 1) // csrc.cint(m2.group(1)) if m2.group(1) else 0
     _need(r"if\s*\(\s*eneg\s*\)\s*ex\s*-=\s*ee\s*;\s*else\s+ex\s*\+=\s*ee\s*;", sc, "scan_number: exponent sign")
     _need(r"exp_base\s*=\s*10\s*;\s*base\s*=\s*2\s*;\s*ex\s*\*=\s*4\s*;", sc, "scan_number: hex float p exponent")
     _need(r"base\s*=\s*10\s*\*\s*\(str\[0\]\s*-\s*'0'\)\s*\+\s*\(str\[1\]\s*-\s*'0'\)\s*;\s*if\s*\(\s*base\s*<\s*2\s*\|\|\s*base\s*>\s*36\s*\)\s*goto\s+error\s*;", sc, "scan_number: two digit radix")
@@ -166,7 +171,7 @@ def render(tree):
     out.append("/-- `digit_lookup[128]` -/")
     out.append("abbrev digitLookup : Array Nat := #[" + ", ".join(str(v) for v in tab) + "]\n")
     for k in ("nbit", "bigBase", "window", "mantBits", "mantMax", "approxPerDigit", "approxBias", "shamtBase", "shamtDiv",
-              "lenLimit", "eeLimit", "intLenLimit", "u64Max", "i64Max", "printDigits",
+              "lenLimit", "eeLimit", "eeSat", "intLenLimit", "u64Max", "i64Max", "printDigits",
               "intMaxDouble", "intMinDoubleAbs", "fixedPrec", "dblDig"):
         out.append("abbrev %s : Nat := %d" % (k, c[k]))
     for k in ("hugeThresh", "tinyThresh"):
